@@ -118,6 +118,7 @@ type moduleSpec struct {
 	Yields  int          `json:"yields,omitempty"`
 	Comment int          `json:"comment_v,omitempty"`
 	Blank   int          `json:"blank_v,omitempty"`
+	Fails   bool         `json:"fails,omitempty"` // the module fails while it loads (after its loads and yields)
 }
 
 func (m *moduleSpec) label() string {
@@ -277,6 +278,9 @@ func (m *moduleSpec) render(p *projSpec) string {
 	}
 	for _, c := range m.Consts {
 		fmt.Fprintf(&sb, "%s = %s\n", c.Name, c.Val.render())
+	}
+	if m.Fails {
+		fmt.Fprintf(&sb, "fail(\"module %s is broken\")\n", m.File)
 	}
 	for _, f := range m.Funcs {
 		fmt.Fprintf(&sb, "\ndef %s(n = 0):\n", f.Name)
